@@ -619,7 +619,8 @@ func (s *Scheme) prepareSigning(membership *membership, parties []PartyID, topic
 	}, func(m interface{}, from uint16) {
 		msg := m.(*rbcMsg)
 		s.Logger.Debugf("Got round %d message from %d", msg.round, from)
-		signingProtocol.OnMsg(msg.payload, from, msg.broadcast)
+		sourceParty := uint16(membership.partyIDByUniversalID(UniversalID(from)))
+		signingProtocol.OnMsg(msg.payload, sourceParty, msg.broadcast)
 	}, len(signers))
 
 	rbc = &rbcFilter{
@@ -680,6 +681,8 @@ func (s *Scheme) initializeThresholdSigning(membership *membership, parties []Pa
 
 	membersWithoutMe := excludeUniversal(signers, s.SelfID)
 
+	nodeOfParty := membership.sessionNodes(signers)
+
 	signer.Init(partyIDsToUInts(parties), s.Threshold, func(msg []byte, isBroadcast bool, to uint16) {
 		var payload []byte
 		payload = append(payload, 255)
@@ -688,7 +691,12 @@ func (s *Scheme) initializeThresholdSigning(membership *membership, parties []Pa
 			s.Send(uint8(MsgTypeMPC), topicHash, payload, membersWithoutMe...)
 			return
 		}
-		s.Send(uint8(MsgTypeMPC), topicHash, payload, membership.universalIDByPartyID(PartyID(to)))
+		dst, exists := nodeOfParty[PartyID(to)]
+		if !exists {
+			s.Logger.Warnf("Party %d does not participate in this signing, dropping message to it", to)
+			return
+		}
+		s.Send(uint8(MsgTypeMPC), topicHash, payload, dst)
 	})
 
 	return signer, nil
